@@ -171,7 +171,70 @@ def _terminates(body: Sequence[ast.stmt]) -> bool:
 Guard = Tuple[ast.AST, bool]
 
 
+def _expand_test(test: ast.AST, at: ast.AST) -> ast.AST:
+    """Inline (a) local names bound exactly once to a pure boolean expression and (b) zero-argument
+    `self.helper()` calls whose method body is a single `return <expr>`, so that a guard that was
+    merely given a name (local or helper) is analysed as the expression it stands for."""
+    func = enclosing_func(at)
+    cls = None
+    for a in ancestors(at):
+        if isinstance(a, ast.ClassDef):
+            cls = a
+            break
+    if func is None:
+        return test
+    single: Dict[str, ast.AST] = {}
+    counts: Dict[str, int] = {}
+    for n in walk_local(func):
+        if isinstance(n, ast.Assign) and len(n.targets) == 1 and isinstance(n.targets[0], ast.Name):
+            counts[n.targets[0].id] = counts.get(n.targets[0].id, 0) + 1
+            single[n.targets[0].id] = n.value
+        elif isinstance(n, (ast.AugAssign, ast.AnnAssign, ast.For, ast.AsyncFor, ast.NamedExpr)):
+            for t in ast.walk(n.target if hasattr(n, "target") else n):
+                if isinstance(t, ast.Name):
+                    counts[t.id] = counts.get(t.id, 0) + 2
+    helpers: Dict[str, ast.AST] = {}
+    if cls is not None:
+        for m in cls.body:
+            if isinstance(m, FuncT) and len(m.args.args) == 1:
+                body = [st for st in m.body if not (isinstance(st, ast.Expr) and isinstance(st.value, ast.Constant))]
+                if len(body) == 1 and isinstance(body[0], ast.Return) and body[0].value is not None:
+                    helpers[m.name] = body[0].value
+
+    def pure_bool(e: ast.AST) -> bool:
+        return isinstance(e, (ast.BoolOp, ast.Compare, ast.UnaryOp)) and not any(isinstance(x, (ast.Await, ast.NamedExpr)) for x in ast.walk(e))
+
+    class T(ast.NodeTransformer):
+        def visit_Name(self, n: ast.Name):
+            if isinstance(n.ctx, ast.Load) and counts.get(n.id) == 1 and n.id in single and pure_bool(single[n.id]):
+                return single[n.id]
+            return n
+
+        def visit_Call(self, n: ast.Call):
+            self.generic_visit(n)
+            if not n.args and not n.keywords and isinstance(n.func, ast.Attribute) and isinstance(n.func.value, ast.Name) and n.func.value.id == "self" and n.func.attr in helpers:
+                return helpers[n.func.attr]
+            return n
+
+    if not any(isinstance(x, (ast.Name, ast.Call)) for x in ast.walk(test)):
+        return test
+    import copy
+
+    new = T().visit(copy.deepcopy(test))
+    if norm(new) == norm(test):
+        return test
+    for x in ast.walk(new):
+        if not hasattr(x, "lineno"):
+            x.lineno = getattr(test, "lineno", 0)
+            x.col_offset = getattr(test, "col_offset", 0)
+    return new
+
+
 def guards(node: ast.AST, stop: Optional[ast.AST] = None) -> List[Guard]:
+    return [(_expand_test(t, node), p) for t, p in _guards_raw(node, stop)]
+
+
+def _guards_raw(node: ast.AST, stop: Optional[ast.AST] = None) -> List[Guard]:
     """Conditions that hold whenever control reaches ``node`` in structured code.
 
     Collected from enclosing if/elif/while/ifexp/boolop and from earlier sibling
